@@ -71,16 +71,6 @@ static const F* choose(int depth, const char* tag)
     return f;
 }
 
-struct Model {
-    Document doc; DocumentBuilder b;
-    Model(): b(doc) { parse_XTA(utap_builtin_declarations(), &b, true, S_DECLARATION, ""); }
-    bool load(const std::string& xta)
-    {
-        parse_XTA(xta.c_str(), &b, true, S_XTA, "");
-        if (!doc.has_errors()) { TypeChecker tc{doc}; doc.accept(tc); }
-        return !doc.has_errors();
-    }
-};
 
 static void run(int depth, bool both_deep, int nleaf)
 {
